@@ -92,6 +92,7 @@ type Conn struct {
 	readDeadline time.Time
 	stalled      bool
 	maxRead      int // if >0, a Read returns at most this many bytes
+	broken       bool
 }
 
 // Pipe creates a connected pair; writes are logged in l under the endpoint names.
@@ -180,6 +181,9 @@ func (c *Conn) Read(p []byte) (int, error) {
 					return 0, os.ErrDeadlineExceeded // virtual time: the deadline "passes" at once
 				}
 			} else {
+				if c.readFault == FaultReset {
+					c.broken = true // after a reset, writes fail too
+				}
 				return 0, c.faultErr()
 			}
 		} else if c.inClosed {
@@ -201,6 +205,10 @@ func (c *Conn) Write(p []byte) (int, error) {
 	if c.closed {
 		c.mu.Unlock()
 		return 0, net.ErrClosed
+	}
+	if c.broken {
+		c.mu.Unlock()
+		return 0, ErrWriteFault
 	}
 	n := len(p)
 	var werr error
